@@ -1073,7 +1073,14 @@ class InspectFunction(object):
         # For now, do not look carefully at the arguments, just parse the arguments of
         # the functions.
         # TODO: add more arguments if we can parse constant arguments
-        named_args = get_arg_ctx_ast(caller_fun, [], OrderedDict())
+        if inspect.isclass(caller_fun) and not (
+            inspect.isfunction(caller_fun.__init__) or inspect.isfunction(caller_fun.__new__)
+        ):
+            # The constructor is inherited from a built-in type (user-defined exceptions, subclasses
+            # of dict or list...): it has no signature that can be analyzed.
+            named_args = OrderedDict()
+        else:
+            named_args = get_arg_ctx_ast(caller_fun, [], OrderedDict())
         # The arguments that are passed explicitly are only known at run time: they must not be
         # replaced by the default values of the parameters (the call context accounts for them).
         unpack = any(isinstance(a, ast.Starred) for a in node.args) or any(
